@@ -56,12 +56,12 @@ class Ctx:
     def count(self, key, n=1):
         self.counters[key] = self.counters.get(key, 0) + n
 
-    def record(self, case, viols, sig=None, nontrivial=True, sample=None, weight=1):
+    def record(self, case, viols, sig=None, nontrivial=True, sample=None, weight=1, nontrivial_weight=None):
         """One executed case: its violations (list of (kind, detail)), its shape signature.
         weight > 1: the case bundles that many separately judged inputs (e.g. a sweep)."""
         self.evaluations += weight
         if nontrivial:
-            self.nontrivial += weight
+            self.nontrivial += weight if nontrivial_weight is None else nontrivial_weight
             if sig is not None:
                 self.sigs.add(sig if isinstance(sig, str) else json.dumps(sig, sort_keys=True, default=str))
             smp = sample if sample is not None else case
@@ -111,7 +111,8 @@ def default_worker(mod, ctx):
         case = mod.gen_case(ctx.rng, ctx)
         viols, info = mod.run_case(case, ctx)
         ctx.record(case, viols, sig=info.get("sig"), nontrivial=info.get("nontrivial", True),
-                   sample=info.get("sample"), weight=info.get("weight", 1))
+                   sample=info.get("sample"), weight=info.get("weight", 1),
+                   nontrivial_weight=info.get("nontrivial_weight"))
 
 
 def main():
